@@ -52,8 +52,23 @@ CHECKS = {
                 note=AM_NOTE),
 }
 
+CHECKS["C06"] = dict(engine="NX", ref="4/C06", technique="conformance replay: every abstract-machine trace of the "
+                     "bounded kernel/structure space is re-executed natively (gcc ASan+UBSan on the emitted C, clang-14 "
+                     "ASan on the emitted LLVM, llvmlite MCJIT) and compared bit for bit",
+                     text="All kernels of the base program space x all formats x all joint structures within the cap are "
+                          "driven through evaluate; assemble; compute; compute' on four executors; any divergence of a "
+                          "return value or array is a violation. This replay is also what binds the AM to the code.",
+                     note="Trusted base: gcc 12, clang-14, llvmlite/LLVM, the C driver (native/driver.c); exact-value input "
+                          "alphabet (rounding covered by a separate sub-sweep).")
+CHECKS["C09"] = dict(engine="DX", ref="4/C09", technique="explicit-state breadth-first search over Tensor histories on the "
+                     "real objects (constructors x input variants, then to_format / pickle / dok round trips) against a "
+                     "dict reference model, canonical-state hashing",
+                     text="All formats of order 0..3 (4 thorough) x dimensions x all cell subsets x all constructors; every "
+                          "canonical state is expanded by every transition until closure.",
+                     note="Trusted base: the dict model and canonical-structure builder in vx/tensors.py.")
+
 NOT_APPLICABLE = {}
-PENDING = ["C06", "C08", "C09", "C10", "C11", "C12", "C13", "C14", "C15"]
+PENDING = ["C08", "C10", "C11", "C12", "C13", "C14", "C15"]
 
 
 def main():
@@ -92,6 +107,10 @@ def main():
         "engines": [
             {"name": "AM", "path": "vx/am.py", "serves_properties": ["C01", "C02", "C03", "C04", "C05", "C06", "C07", "C16"],
              "kind_free_text": "explicit-state abstract machine for tensora IR with monitors"},
+            {"name": "NX", "path": "vx/nx.py", "serves_properties": ["C06"],
+             "kind_free_text": "native conformance harness: gcc/clang sanitizer builds + MCJIT vs abstract machine"},
+            {"name": "DX", "path": "vx/checks/c09.py", "serves_properties": ["C09"],
+             "kind_free_text": "breadth-first search over Tensor construction/conversion histories"},
             {"name": "KX", "path": "vx/kx.py", "serves_properties": ["C01", "C02", "C03", "C04", "C05", "C07", "C16"],
              "kind_free_text": "kernel explorer: programs x formats x dimensions x joint structures x capacities"},
         ],
